@@ -140,52 +140,7 @@ func c49(c *Ctx) {
 				continue
 			}
 			isSize := func(v ssa.Value) bool { return v == ssa.Value(size) }
-			// best-so-far phi: the Y of `size < best`
-			var best ssa.Value
-			for _, fc := range allCmpFacts(f) {
-				if fc.Op == token.LSS && isSize(fc.X) {
-					best = fc.Y
-				}
-			}
-			if !c.Expect(best != nil, app, f, st.fn+":less-specific-test", "no 'less specific than the best' test") {
-				continue
-			}
-			isBest := func(v ssa.Value) bool { return v == best }
-			c.Unreachable(app, st.fn+":less-specific-skipped", Cmp(isSize, token.LSS, isBest))
-			// list restarted exactly on size > best; best updated to size there
-			lst, ok := app.Call.Args[0].(*ssa.Phi)
-			okR := false
-			if ok && len(lst.Edges) == 2 {
-				for i, e := range lst.Edges {
-					pr := lst.Block().Preds[i]
-					fs := append(append([]Fact(nil), FactsAtBlock(pr)...), edgeOnlyFacts(pr, lst.Block())...)
-					_, more := hasFact(fs, Cmp(isSize, token.GTR, isBest))
-					if sl, isFresh := e.(*ssa.Slice); isFresh {
-						_, fr := sl.X.(*ssa.Alloc)
-						okR = fr && more
-					} else if _, isMk := e.(*ssa.MakeSlice); isMk {
-						okR = more
-					} else if more {
-						okR = false
-					}
-				}
-				// best phi in the same block
-				for _, in := range lst.Block().Instrs {
-					if bp, ok := in.(*ssa.Phi); ok && bp != lst {
-						for i, e := range bp.Edges {
-							pr := bp.Block().Preds[i]
-							fs := append(append([]Fact(nil), FactsAtBlock(pr)...), edgeOnlyFacts(pr, bp.Block())...)
-							_, more := hasFact(fs, Cmp(isSize, token.GTR, isBest))
-							if more {
-								c.Expect(isSize(e), app, f, st.fn+":best-updated-to-more-specific", "the best match size is not updated when a more specific entry is found")
-							} else {
-								c.Expect(isBest(e), app, f, st.fn+":best-kept-otherwise", "the best match size changes without a more specific entry")
-							}
-						}
-					}
-				}
-			}
-			c.Expect(okR, app, f, st.fn+":list-restarts-on-more-specific", "the candidate list is not restarted exactly when a more specific entry is found")
+			c49BestSoFar(c, f, app, isSize, st.fn)
 			el := appendedElems(app)
 			c.Expect(len(el) == 1 && (RangeValueOf(AnyV)(el[0])), app, f, st.fn+":appends-the-entry", "something other than the visited entry is collected")
 		}
@@ -237,15 +192,7 @@ func c49(c *Ctx) {
 						c.Expect(isNil, app, ft, "type:any-only-when-own-type-absent", "'any' is used although the connection's own source type is configured")
 					}
 				}
-				var best ssa.Value
-				for _, fc := range allCmpFacts(ft) {
-					if fc.Op == token.LSS && isM(fc.X) {
-						best = fc.Y
-					}
-				}
-				if c.Expect(best != nil, app, ft, "type:less-specific-test", "no less-specific test in the source-type stage") {
-					c.Unreachable(app, "type:less-specific-skipped", Cmp(isM, token.LSS, func(v ssa.Value) bool { return v == best }))
-				}
+				c49BestSoFar(c, ft, app, isM, "type")
 			}
 			c.MustFact(app, "type:nil-prefix-sets-not-collected", NotNil(AnyV))
 		}
@@ -346,4 +293,58 @@ func incomingFacts(pred, blk *ssa.BasicBlock) [][]Fact {
 		}
 	}
 	return [][]Fact{append(append([]Fact(nil), FactsAtBlock(pred)...), edgeOnlyFacts(pred, blk)...)}
+}
+
+// c49BestSoFar checks the "keep the most specific" discipline around the
+// candidate collection `app` in f: entries less specific than the best so far
+// are skipped, the list restarts exactly when an entry is more specific (and
+// its specificity becomes the best), equally specific entries are added.
+func c49BestSoFar(c *Ctx, f *ssa.Function, app *ssa.Call, isSize VM, name string) {
+	st := struct{ fn string }{name}
+	// best-so-far phi: the Y of `size < best`
+	var best ssa.Value
+	for _, fc := range allCmpFacts(f) {
+		if fc.Op == token.LSS && isSize(fc.X) {
+			best = fc.Y
+		}
+	}
+	if !c.Expect(best != nil, app, f, st.fn+":less-specific-test", "no 'less specific than the best' test") {
+		return
+	}
+	isBest := func(v ssa.Value) bool { return v == best }
+	c.Unreachable(app, st.fn+":less-specific-skipped", Cmp(isSize, token.LSS, isBest))
+	// list restarted exactly on size > best; best updated to size there
+	lst, ok := app.Call.Args[0].(*ssa.Phi)
+	okR := false
+	if ok && len(lst.Edges) == 2 {
+		for i, e := range lst.Edges {
+			pr := lst.Block().Preds[i]
+			fs := append(append([]Fact(nil), FactsAtBlock(pr)...), edgeOnlyFacts(pr, lst.Block())...)
+			_, more := hasFact(fs, Cmp(isSize, token.GTR, isBest))
+			if sl, isFresh := e.(*ssa.Slice); isFresh {
+		_, fr := sl.X.(*ssa.Alloc)
+		okR = fr && more
+			} else if _, isMk := e.(*ssa.MakeSlice); isMk {
+		okR = more
+			} else if more {
+		okR = false
+			}
+		}
+		// best phi in the same block
+		for _, in := range lst.Block().Instrs {
+			if bp, ok := in.(*ssa.Phi); ok && bp != lst {
+		for i, e := range bp.Edges {
+			pr := bp.Block().Preds[i]
+			fs := append(append([]Fact(nil), FactsAtBlock(pr)...), edgeOnlyFacts(pr, bp.Block())...)
+			_, more := hasFact(fs, Cmp(isSize, token.GTR, isBest))
+			if more {
+				c.Expect(isSize(e), app, f, st.fn+":best-updated-to-more-specific", "the best match size is not updated when a more specific entry is found")
+			} else {
+				c.Expect(isBest(e), app, f, st.fn+":best-kept-otherwise", "the best match size changes without a more specific entry")
+			}
+		}
+			}
+		}
+	}
+	c.Expect(okR, app, f, st.fn+":list-restarts-on-more-specific", "the candidate list is not restarted exactly when a more specific entry is found")
 }
